@@ -11,15 +11,27 @@ from .sx import Sym, d_bytes, d_int
 RULE = ('write/read_value/reopen histories over keys of every UTF-8 length modulo 8 (ASCII, 2/3/4-byte code points, NUL, '
         'trailing spaces, JSON mmap_key strings), keys around and beyond the capacity (0, 1, 2, 3 doublings of the real 65536 and many '
         'doublings of a patched small initial size), doubles by bit pattern (NaN payloads incl. signalling, -0.0, subnormals, inf, random '
-        'bits), reopen at arbitrary points; exhaustive slice: all histories of length <= 3 over 3 keys x 2 values x reopen at a small '
+        'bits), reopen at arbitrary points; keys the store must REFUSE, anywhere in a history and repeated: strs that are not '
+        'well-formed Unicode (lone high / low surrogates incl. the PEP 383 range U+DC80..U+DCFF = os.fsdecode images, reversed and '
+        'split pairs, alone / first / middle / last in ASCII and multi-byte text, inside JSON mmap_key strings, at the end of keys '
+        'longer than the capacity) and non-str keys (bytes equal to a stored key\'s encoding, int, float, bool, None, tuple, frozenset; '
+        'unhashable list, dict, set, bytearray); exhaustive slices: all histories of length <= 3 over 3 keys x 2 values x reopen, '
+        'and all histories of length <= 3 with at least one refused call over 3 accepted + 5 refused calls, at a small '
         'initial size; observation after EVERY step: the first `used` bytes of the file, read_all_values(), '
-        'read_all_values_from_file(), read_value(); non-trivial = at least one overwrite or reopen or growth; distinct by case')
-TRUSTED = ['UTF-8 encode/decode are inverse on encodable strings (keys are byte strings in the model)',
+        'read_all_values_from_file(), read_value(); after a call that raised also: whole file (length and bytes) unchanged, '
+        'read_value of every stored key through the same handle; non-trivial = at least one overwrite or reopen or growth or '
+        'refused call; distinct by case')
+TRUSTED = ['the strict UTF-8 decoder inverts the encoder on the byte strings the encoder produces (the encoder itself is modelled, '
+           'compared with CPython by the correspondence and proved injective; stored keys are byte strings in the model)',
+           'a non-str key is never equal to a stored str key; hash() raises TypeError on list/dict/set/bytearray; int, float, bool, '
+           'None, tuple, frozenset and bytes have no .encode (bytes) or none at all',
            "struct packs/unpacks 'd' bit-exactly and 'i' as little-endian signed 32-bit (values are 8-byte strings in the model)",
            'a shared mmap and read() of the same file see the same bytes (Linux unified page cache)']
-ASSUMPTIONS = ['keys are encodable strings (no lone surrogates); total used bytes < 2^31 (struct i)',
+ASSUMPTIONS = ['total used bytes < 2^31 (struct i)',
+               'a key that is refused (raises before anything changed) is outside "what was written"; a key that is accepted '
+               'must read back as the same object; exception classes compared as ValueError vs other',
                'the file length itself is not observed (C10 does not fix it): only file length >= used bytes is checked']
-TIME_BUDGET = {'quick': 70, 'thorough': 800}
+TIME_BUDGET = {'quick': 95, 'thorough': 900}
 
 BLOB_LIMIT = 4096
 KEY_LIMIT = 64
@@ -40,11 +52,45 @@ def bits(d):
     return struct.unpack('<Q', struct.pack('<d', d))[0]
 
 
+# non-str keys, by name (JSON-serialisable cases); 'bytes:<hex>' = those bytes
+OBJ_KEYS = {'int': lambda: 7, 'zero': lambda: 0, 'float': lambda: 1.5, 'none': lambda: None, 'bool': lambda: True,
+            'tuple': lambda: ('a', 1), 'tuple-empty': lambda: (), 'frozenset': lambda: frozenset(['a']),
+            'list': lambda: ['a'], 'list-empty': lambda: [], 'dict': lambda: {'a': 1}, 'set': lambda: {'a'},
+            'bytearray': lambda: bytearray(b'a'), 'tuple-of-list': lambda: (['a'],)}
+
+
 def key_str(ks):
+    """the key object of a case: a str ('...' | [unit, count, suffix] | {'cps': [code points]}, the latter also for strs
+    that are not well-formed Unicode) or a non-str object ({'obj': name})"""
     if isinstance(ks, str):
         return ks
+    if isinstance(ks, dict):
+        if 'cps' in ks:
+            return ''.join(chr(c) for c in ks['cps'])
+        name = ks['obj']
+        if name.startswith('bytes:'):
+            return bytes.fromhex(name[6:])
+        return OBJ_KEYS[name]()
     unit, count, suffix = ks
-    return unit * count + suffix
+    return unit * count + key_str(suffix)
+
+
+def wellformed(k):
+    """a Unicode key in the sense of the property: a str that strict UTF-8 can encode"""
+    if not isinstance(k, str):
+        return False
+    try:
+        k.encode('utf-8')
+        return True
+    except UnicodeEncodeError:
+        return False
+
+
+def ckey(k):
+    """canonical, injective image of a key object (well-formed strs: their UTF-8 encoding, as the model's keys)"""
+    if isinstance(k, str):
+        return blob(k.encode('utf-8', 'surrogatepass'), KEY_LIMIT)
+    return ['obj', type(k).__name__, repr(k)]
 
 
 def blob(b, limit):
@@ -100,8 +146,134 @@ def rand_history(rng, nkeys, nops, key_pool=None):
     return ops
 
 
+# ---- keys the store must refuse
+SURROGATES = [0xD800, 0xDB7F, 0xDBFF, 0xDC00, 0xDC7F, 0xDC80, 0xDCE9, 0xDCFF, 0xDFFF]
+FSDECODE_NAMES = [b'caf\xe9', b'\xff', b'\x80abc', b'na\xefve.txt', b'\xe2\x82', b'\xf0\x9f\x98', b'ok\xc3', b'\xc0\xaf',
+                  b'\xed\xa0\x80', b'm\xfc\xdfig']
+
+
+def cps(s):
+    return [ord(c) for c in s]
+
+
+def bad_str_key(rng, maxlen=8):
+    """a str that str.encode('utf-8') refuses, as {'cps': [...]}: a surrogate code point at some position"""
+    def sur():
+        return rng.choice(SURROGATES) if rng.random() < 0.6 else rng.randrange(0xD800, 0xE000)
+    r = rng.random()
+    if r < 0.12:
+        body = [sur()]
+    elif r < 0.28:
+        body = cps(rand_key(rng, maxlen)) + [sur()]
+    elif r < 0.42:
+        body = [sur()] + cps(rand_key(rng, maxlen))
+    elif r < 0.6:
+        body = cps(rand_key(rng, maxlen)) + [sur()] + cps(rand_key(rng, maxlen))
+    elif r < 0.67:      # a pair the wrong way round
+        body = cps(rand_key(rng, 4)) + [rng.randrange(0xDC00, 0xE000), rng.randrange(0xD800, 0xDC00)] + cps(rand_key(rng, 4))
+    elif r < 0.74:      # the two UTF-16 code units of an astral character as two code points (CESU-8 if encoded leniently)
+        body = cps(rand_key(rng, 4)) + [rng.randrange(0xD800, 0xDC00), rng.randrange(0xDC00, 0xE000)] + cps(rand_key(rng, 4))
+    elif r < 0.88:      # os.fsdecode() of a file name that is not UTF-8 (PEP 383)
+        raw = rng.choice(FSDECODE_NAMES) if rng.random() < 0.6 else bytes(rng.randrange(256) for _ in range(rng.randrange(1, 9)))
+        body = cps(raw.decode('utf-8', 'surrogateescape'))
+        if not any(0xD800 <= c < 0xE000 for c in body):
+            body.insert(rng.randrange(len(body) + 1), rng.randrange(0xDC80, 0xDD00))
+    else:               # inside an otherwise ordinary mmap_key JSON string
+        v = cps(rand_key(rng, 4)) + [sur()] + cps(rand_key(rng, 3))
+        where = rng.randrange(3)
+        if where == 0:
+            body = cps('["m", "m_total", {"l": "') + v + cps('"}, "help"]')
+        elif where == 1:
+            body = cps('["m') + v + cps('", "m_total", {}, "help"]')
+        else:
+            body = cps('["m", "m", {"a": "x", "b": "y"}, "') + v + cps('"]')
+    return {'cps': body}
+
+
+def bad_obj_key(rng, keys=()):
+    """a key that is not a str: {'obj': name}"""
+    r = rng.random()
+    strs = [k for k in (key_str(x) for x in keys) if isinstance(k, str) and wellformed(k) and len(k) < 64]
+    if r < 0.3 and strs:
+        return {'obj': 'bytes:' + rng.choice(strs).encode('utf-8').hex()}       # the stored bytes of an existing key
+    if r < 0.4:
+        return {'obj': 'bytes:' + bytes(rng.randrange(256) for _ in range(rng.randrange(0, 6))).hex()}
+    return {'obj': rng.choice(sorted(OBJ_KEYS))}
+
+
+def sprinkle_refused(rng, ops):
+    """insert calls with refused keys (new ones and repeated ones) anywhere into a history"""
+    ops = list(ops)
+    pool = []
+    for _ in range(rng.choice((1, 1, 2, 3, 5))):
+        if pool and rng.random() < 0.35:
+            k = rng.choice(pool)
+        elif rng.random() < 0.72:
+            k = bad_str_key(rng)
+        else:
+            k = bad_obj_key(rng, [op[1] for op in ops if op[0] != 'O'])
+        pool.append(k)
+        op = ['W', k, rand_bits(rng), rand_bits(rng)] if rng.random() < 0.7 else ['R', k]
+        ops.insert(rng.randrange(len(ops) + 1), op)
+    return ops
+
+
+def refused_cases(ctx):
+    """structured histories around refused keys: before / refused / after / same refused key again / reopen / overwrite"""
+    def hist(bad, isz):
+        return {'isz': isz, 'ops': [['W', 'before', 1, 2], ['W', bad, 3, 4], ['W', 'after', 5, 6], ['R', bad], ['W', bad, 7, 8],
+                                    ['O'], ['W', bad, 9, 10], ['W', 'before', 0x7ff8000000000001, 11], ['R', 'after'],
+                                    ['R', 'new'], ['R', bad], ['O'], ['W', 'caf\xe9', 12, 13]]}
+    contexts = [lambda c: [c], lambda c: cps('caf') + [c], lambda c: [c] + cps('abc'), lambda c: cps('ab') + [c] + cps('cd'),
+                lambda c: cps('\xe9\u20ac') + [c] + cps('\U0001F600'), lambda c: cps('before') + [c],
+                lambda c: cps('["m", "m_total", {"l": "caf') + [c] + cps('"}, "help"]')]
+    n = 0
+    for c in SURROGATES:
+        for ctxf in contexts:
+            n += 1
+            if ctx.thorough or n % 3 == 0 or c == 0xDCE9:
+                yield hist({'cps': ctxf(c)}, (65536, 32, 8)[n % 3])
+    # first call of all on a fresh file, and as the only call
+    for bad in ({'cps': [0xDCE9]}, {'cps': cps('caf') + [0xDCE9]}, {'cps': [0xD800]}, {'obj': 'bytes:61'}, {'obj': 'list'}):
+        for isz in (65536, 16):
+            yield {'isz': isz, 'ops': [['W', bad, 1, 2]]}
+            yield {'isz': isz, 'ops': [['R', bad], ['O'], ['W', 'a', 1, 2], ['W', bad, 3, 4], ['O']]}
+    # pairs the wrong way round / split pairs, several surrogates
+    for body in ([0xDC00, 0xD800], [0xD83D, 0xDE00], [0xD800, 0xD800], cps('a') + [0xDBFF, 0xDFFF] + cps('b'), [0xDCFF] * 5):
+        yield hist({'cps': body}, 24)
+    # non-str keys, every kind
+    for name in sorted(OBJ_KEYS) + ['bytes:', 'bytes:6265666f7265', 'bytes:ff', 'bytes:636166c3a9']:
+        yield hist({'obj': name}, 65536 if name in ('int', 'list', 'bytes:6265666f7265') else 40)
+    # a refused key that would not fit: no growth may happen (0, 1 and 2 doublings' worth), also after a key that did grow
+    for n_ in (65507, 65508, 140000) if not ctx.thorough else (100, 65500, 65507, 65508, 70001, 140000, 300003):
+        bad = ['x', n_, {'cps': [0xDCE9]}]
+        yield {'isz': 65536, 'ops': [['W', 'p', 1, 2], ['W', bad, 3, 4], ['W', 'q', 5, 6], ['O'], ['R', bad], ['W', 'p', 7, 8]]}
+    yield {'isz': 65536, 'ops': [['W', ['\u20ac', 30000, 'k'], 1, 1], ['W', ['\u20ac', 30000, {'cps': [0xDC80]}], 2, 2], ['O'],
+                                 ['W', {'cps': [0xDFFF] * 3 + cps('k')}, 3, 3],
+                                 ['R', ['\u20ac', 30000, 'k']]]}
+    for isz in (8, 64):
+        yield {'isz': isz, 'ops': [['W', 'a', 1, 2], ['W', ['\xe9', 300, {'cps': [0xD800]}], 3, 4], ['W', 'b', 5, 6],
+                                   ['W', ['\xe9', 300, ''], 7, 8], ['W', ['\xe9', 300, {'cps': [0xD800]}], 9, 10], ['O'], ['R', 'a']]}
+    # exhaustive: every history of length <= 3 with at least one refused call over 3 accepted and 5 refused calls
+    good = [['W', 'a', 0x7ff0000000000001, 1], ['W', '\xe9', 0x8000000000000000, 2], ['O']]
+    bad = [['W', {'cps': cps('caf') + [0xDCE9]}, 3, 4], ['W', {'cps': cps('a') + [0xD800]}, 5, 6], ['R', {'cps': [0xDFFF]}],
+           ['W', {'obj': 'bytes:61'}, 7, 8], ['W', {'obj': 'list'}, 9, 10]]
+    alpha = good + bad
+    for a in alpha:
+        if a in bad:
+            yield {'isz': 32, 'ops': [a]}
+        for b in alpha:
+            if a in bad or b in bad:
+                yield {'isz': 32, 'ops': [a, b]}
+            for c in alpha:
+                if (a in bad or b in bad or c in bad) and (ctx.thorough or (alpha.index(a) + alpha.index(b) + alpha.index(c)) % 2 == 0):
+                    yield {'isz': 32, 'ops': [a, b, c]}
+
+
 def cases(ctx):
     rng = ctx.rng
+    for c in refused_cases(ctx):
+        yield c
     # --- every encoded length modulo 8, single- and multi-byte, at the real initial size
     for unit in ('a', 'é', '€', '\U0001F600', ' '):
         ops = []
@@ -158,6 +330,8 @@ def cases(ctx):
             if rng.random() < 0.5:
                 ops.append(['O'])
                 ops.append(['W', big, rand_bits(rng), rand_bits(rng)])
+        if i % 3 == 0:
+            ops = sprinkle_refused(rng, ops)
         yield {'isz': isz, 'ops': ops}
 
 
@@ -179,7 +353,7 @@ def canon_entries(it):
     out = []
     for t in it:
         k, v, ts = t[0], t[1], t[2]
-        out.append([blob(k.encode('utf-8'), KEY_LIMIT), bits(v), bits(ts)])
+        out.append([ckey(k), bits(v), bits(ts)])
     return out
 
 
@@ -190,13 +364,31 @@ def attempt(f):
         return ['err', exc_kind(e)]
 
 
-def observe(mod, path, d, peek):
+def observe2(mod, path, d, peek):
+    """the observation of one step, and a digest of the WHOLE file (length included)"""
     raw = open(path, 'rb').read()
     used = struct.unpack_from('<i', raw, 0)[0] if len(raw) >= 4 else -1
     return [len(raw) >= used, used, blob(raw[:max(used, 0)], BLOB_LIMIT),
             attempt(lambda: canon_entries(d.read_all_values())),
             attempt(lambda: canon_entries(mod.MmapedDict.read_all_values_from_file(path))),
-            peek]
+            peek], hashlib.md5(raw).hexdigest() + ':%d' % len(raw)
+
+
+def observe(mod, path, d, peek):
+    return observe2(mod, path, d, peek)[0]
+
+
+def probe(d, keys):
+    """read_value of every stored key through the handle (no effect when the handle knows the key)"""
+    out = []
+    for k in keys:
+        v, ts = d.read_value(k)
+        out.append([ckey(k), ['ok', [bits(v), bits(ts)]]])
+    return out
+
+
+def raise_kind(e):
+    return 'ValueError' if isinstance(e, ValueError) else 'other'
 
 
 class patched_isz:
@@ -219,41 +411,50 @@ def impl(case):
     path = os.path.join(tmp, 'counter_1.db')
     steps = []
     d = None
+    stored = []         # keys of the calls that did not raise, in first-call order
     try:
         with patched_isz(mod, case['isz']):
             try:
                 d = mod.MmapedDict(path)
             except Exception as e:
                 return [['err', exc_kind(e)]]
-            steps.append(observe(mod, path, d, None))
+            o, digest = observe2(mod, path, d, None)
+            steps.append(o)
             for op in case['ops']:
                 peek = None
                 try:
                     if op[0] == 'W':
-                        d.write_value(key_str(op[1]), frombits(op[2]), frombits(op[3]))
+                        k = key_str(op[1])
+                        d.write_value(k, frombits(op[2]), frombits(op[3]))
                     elif op[0] == 'R':
-                        v, ts = d.read_value(key_str(op[1]))
+                        k = key_str(op[1])
+                        v, ts = d.read_value(k)
                         peek = ['ok', [bits(v), bits(ts)]]
                     else:
                         d.close()
                         d = mod.MmapedDict(path)
                 except Exception as e:
-                    steps.append(['err', exc_kind(e)])
-                    break
-                steps.append(observe(mod, path, d, peek))
+                    if op[0] == 'O':
+                        steps.append(['err', exc_kind(e)])
+                        break
+                    # write_value / read_value raised: the handle is still open; look at what the call left behind
+                    o, digest2 = observe2(mod, path, d, ['raised', raise_kind(e)])
+                    steps.append(o + [digest2 == digest, attempt(lambda: probe(d, stored))])
+                    digest = digest2
+                    continue
+                if op[0] != 'O' and not any(type(k) is type(x) and k == x for x in stored):
+                    stored.append(k)
+                o, digest = observe2(mod, path, d, peek)
+                steps.append(o)
             else:
                 # after the history: close, reopen by a new writer, read every key through read_value (direct oracle only)
                 fin = []
                 try:
                     d.close()
                     d = mod.MmapedDict(path)
-                    seen = []
-                    for op in case['ops']:
-                        if op[0] != 'O' and key_str(op[1]) not in seen:
-                            seen.append(key_str(op[1]))
-                    for k in seen:
+                    for k in stored:
                         v, ts = d.read_value(k)
-                        fin.append([blob(k.encode('utf-8'), KEY_LIMIT), bits(v), bits(ts)])
+                        fin.append([ckey(k), bits(v), bits(ts)])
                     fin = ['ok', fin, attempt(lambda: canon_entries(d.read_all_values()))]
                 except Exception as e:
                     fin = ['err', exc_kind(e)]
@@ -308,14 +509,43 @@ def d_step(s):
         return ['nofile']
     flen, used = d_int(s[0]), d_int(s[1])
     pk = None
+    extra = []
     if s[5] != 'N':
-        pk = ['ok', d_val(s[5][1])] if s[5][0] == 'ok' else ['err', s[5][1]]
-    return [flen >= used, used, d_blob(s[2]), d_entries(s[3]), d_entries(s[4]), pk]
+        if s[5][0] == 'raised':
+            pk = ['raised', 'ValueError' if s[5][1] == 'ValueError' else 'other']
+            extra = [s[7] == 'T', ['ok', [[d_blob(p[0]), ['ok', d_val(p[1][1])] if p[1][0] == 'ok' else ['err', p[1][1]]]
+                                          for p in s[8]]]]
+        else:
+            pk = ['ok', d_val(s[5][1])] if s[5][0] == 'ok' else ['err', s[5][1]]
+    return [flen >= used, used, d_blob(s[2]), d_entries(s[3]), d_entries(s[4]), pk] + extra
+
+
+def sx_key(ks):
+    k = key_str(ks)
+    if isinstance(k, str):
+        return (Sym('s'), k)            # a str travels by its code points: the model does the encoding
+    try:
+        hash(k)
+    except TypeError:
+        return Sym('U')
+    return Sym('H')
+
+
+def sx_pops(ops):
+    out = []
+    for op in ops:
+        if op[0] == 'W':
+            out.append((Sym('W'), sx_key(op[1]), le8(op[2]), le8(op[3])))
+        elif op[0] == 'R':
+            out.append((Sym('R'), sx_key(op[1])))
+        else:
+            out.append((Sym('O'),))
+    return out
 
 
 def model(m, case):
     import mmap
-    r = m.call('c10_run', case['isz'], mmap.PAGESIZE, BLOB_LIMIT, sx_ops(case['ops']))
+    r = m.call('c10_prun', case['isz'], mmap.PAGESIZE, BLOB_LIMIT, sx_pops(case['ops']))
     return [d_step(s) for s in r]
 
 
@@ -325,57 +555,97 @@ def same(i, mo):
 
 
 # ---------------------------------------------------------------- direct oracle
-def reference(ops):
-    """last-write-wins map in first-write order after every step (index 0 = after open)"""
-    cur = {}
+def reference(ops, raised=None):
+    """last-write-wins map in first-write order after every step (index 0 = after open); a call that raised (raised[i])
+    stores nothing"""
+    cur = []            # [canonical key, value bits, timestamp bits]
     states = [[]]
-    for op in ops:
-        if op[0] == 'W':
-            cur[key_str(op[1])] = (op[2], op[3])
-        elif op[0] == 'R':
-            cur.setdefault(key_str(op[1]), (0, 0))
-        states.append([[blob(k.encode('utf-8'), KEY_LIMIT), v, t] for k, (v, t) in cur.items()])
+    for i, op in enumerate(ops):
+        if op[0] != 'O' and not (raised and raised[i]):
+            ck = ckey(key_str(op[1]))
+            hit = [e for e in cur if e[0] == ck]
+            if op[0] == 'W':
+                if hit:
+                    hit[0][1:] = [op[2], op[3]]
+                else:
+                    cur.append([ck, op[2], op[3]])
+            elif not hit:
+                cur.append([ck, 0, 0])
+        states.append([list(e) for e in cur])
     return states
+
+
+def step_raised(s):
+    return isinstance(s, list) and len(s) > 5 and isinstance(s[5], list) and s[5][:1] == ['raised']
 
 
 def direct(case, obs):
     ops = case['ops']
-    ref = reference(ops)
+    steps = [s for s in obs if not isinstance(s, dict)]
+    raised = [i + 1 < len(steps) and step_raised(steps[i + 1]) for i in range(len(ops))]
+    ref = reference(ops, raised)
     for i, s in enumerate(obs):
         what = 'after open' if i == 0 else 'after step %d %r' % (i, _short(ops[i - 1]) if i <= len(ops) else 'final')
         if isinstance(s, dict):
             fin = s['final']
             exp = ref[len(ops)]
             if fin[0] != 'ok':
-                return 'close + reopen by a new writer raised %s' % fin[1]
+                return 'close + reopen by a new writer raised %s%s' % (fin[1], _refused_note(ops, raised))
             if fin[1] != exp:
                 return 'read_value after close+reopen: %s, expected %s' % (_diff(fin[1], exp), '')
             if fin[2] != ['ok', exp]:
                 return 'read_all_values after close+reopen: %s' % _diff(fin[2][1] if fin[2][0] == 'ok' else fin[2], exp)
             continue
         if s[0] == 'err':
-            return '%s: raised %s' % (what, s[1])
+            return '%s: raised %s%s' % (what, s[1], _refused_note(ops[:i], raised))
         exp = ref[i]
+        if step_raised(s):
+            # a refused call: legitimate only for a key that is not a (well-formed) Unicode str, and only as the identity
+            k = key_str(ops[i - 1][1])
+            if wellformed(k):
+                return '%s: raised %s on a well-formed Unicode key' % (what, s[5][1])
+            if s[6] is not True:
+                return '%s: the call raised %s but changed the file (length or bytes)' % (what, s[5][1])
+            want = ['ok', [[e[0], ['ok', [e[1], e[2]]]] for e in exp]]
+            if s[7] != want:
+                return '%s: the call raised %s and read_value through the same handle now gives %r, expected %r' % (
+                    what, s[5][1], s[7], want)
         if s[0] is not True:
             return '%s: used-bytes header %d exceeds the file length' % (what, s[1])
         if s[3] != ['ok', exp]:
-            return '%s: read_all_values(): %s' % (what, _diff(s[3][1] if s[3][0] == 'ok' else s[3], exp))
+            return '%s: read_all_values(): %s%s' % (what, _diff(s[3][1] if s[3][0] == 'ok' else s[3], exp),
+                                                    _refused_note(ops[:i], raised))
         if s[4] != ['ok', exp]:
-            return '%s: read_all_values_from_file(): %s' % (what, _diff(s[4][1] if s[4][0] == 'ok' else s[4], exp))
-        if i > 0 and ops[i - 1][0] == 'R':
-            k = blob(key_str(ops[i - 1][1]).encode('utf-8'), KEY_LIMIT)
+            return '%s: read_all_values_from_file(): %s%s' % (what, _diff(s[4][1] if s[4][0] == 'ok' else s[4], exp),
+                                                              _refused_note(ops[:i], raised))
+        if i > 0 and ops[i - 1][0] == 'R' and not step_raised(s):
+            k = ckey(key_str(ops[i - 1][1]))
             want = [[v, t] for kk, v, t in exp if kk == k][0]
             if s[5] != ['ok', want]:
                 return '%s: read_value returned %r, expected %r' % (what, s[5], want)
-    if len([s for s in obs if not isinstance(s, dict)]) != len(ops) + 1:
+    if len(steps) != len(ops) + 1:
         return 'history stopped early'
     return None
+
+
+def _refused_note(ops, raised):
+    """names the accepted keys that are not well-formed Unicode / not strs (the store took a key it cannot give back)"""
+    odd = []
+    for i, op in enumerate(ops):
+        if op[0] != 'O' and not raised[i]:
+            k = key_str(op[1])
+            if not wellformed(k) and ascii(k) not in odd:
+                odd.append(ascii(k) if len(ascii(k)) < 60 else ascii(k)[:50] + '...')
+    return ' [accepted without raising: key %s, which strict UTF-8 cannot encode or is not a str]' % ', '.join(odd[:3]) if odd else ''
 
 
 def _short(op):
     if op[0] == 'O':
         return 'reopen'
     k = key_str(op[1])
+    if not isinstance(k, str):
+        return [op[0], repr(k)] + op[2:]
+    k = k if wellformed(k) else ascii(k)
     return [op[0], k if len(k) <= 24 else k[:10] + '...(%d chars)' % len(k)] + op[2:]
 
 
@@ -392,28 +662,65 @@ def _diff(got, exp):
 
 def nontrivial(case, obs):
     ops = case['ops']
-    seen = set()
+    seen = []
     for op in ops:
         if op[0] == 'O':
             return True
         k = key_str(op[1])
-        if k in seen:
+        if not wellformed(k) or k in seen:
             return True
-        seen.add(k)
+        seen.append(k)
     return any(len(key_str(op[1])) > case['isz'] for op in ops if op[0] != 'O')
+
+
+def key_class(k):
+    if not isinstance(k, str):
+        try:
+            hash(k)
+        except TypeError:
+            return ['key=nonstr-unhashable']
+        return ['key=nonstr-bytes' if isinstance(k, bytes) else 'key=nonstr-hashable']
+    sur = [i for i, c in enumerate(k) if 0xD800 <= ord(c) < 0xE000]
+    if not sur:
+        return []
+    out = ['key=surrogate']
+    for i in sur[:4]:
+        c = ord(k[i])
+        out.append('surrogate=high' if c < 0xDC00 else 'surrogate=pep383-escape' if 0xDC80 <= c <= 0xDCFF else 'surrogate=low-other')
+        out.append('surrogate-at=' + ('only' if len(k) == 1 else 'first' if i == 0 else 'last' if i == len(k) - 1 else 'middle'))
+    if k.startswith('['):
+        out.append('surrogate-in=json-key')
+    if any(ord(c) > 127 and not 0xD800 <= ord(c) < 0xE000 for c in k[:50]):
+        out.append('surrogate-in=multibyte-text')
+    return out
 
 
 def classify(case, obs):
     out = []
     ops = case['ops']
     out.append('isz=real' if case['isz'] == 65536 else 'isz=patched-small')
-    for op in ops:
+    steps = [s for s in obs if not isinstance(s, dict)]
+    refused_before = False
+    for i, op in enumerate(ops):
         out.append('op=' + op[0])
+        r = i + 1 < len(steps) and step_raised(steps[i + 1])
         if op[0] != 'O':
-            out.append('keylen%%8=%d' % (len(key_str(op[1]).encode('utf-8')) % 8))
-            if any(ord(c) > 127 for c in key_str(op[1])[:50]):
-                out.append('key=multibyte')
-    last = [s for s in obs if not isinstance(s, dict)][-1]
+            k = key_str(op[1])
+            out += key_class(k)
+            if wellformed(k):
+                out.append('keylen%%8=%d' % (len(k.encode('utf-8')) % 8))
+                if any(ord(c) > 127 for c in k[:50]):
+                    out.append('key=multibyte')
+                if refused_before and not r:
+                    out.append('accepted-call-after-refused')
+            elif len(k) > case['isz'] if isinstance(k, str) else False:
+                out.append('refused-key-longer-than-capacity')
+            if r:
+                out.append('outcome=raised-' + steps[i + 1][5][1])
+                refused_before = True
+        elif refused_before:
+            out.append('reopen-after-refused')
+    last = steps[-1]
     if last[0] != 'err':
         used = last[1]
         dbl = 0
@@ -423,14 +730,14 @@ def classify(case, obs):
             dbl += 1
         out.append('doublings>=%d' % min(dbl, 4))
     seen_o = False
-    keys = set()
+    keys = []
     for op in ops:
         if op[0] == 'O':
             seen_o = True
-        elif op[0] == 'W':
+        elif op[0] == 'W' and wellformed(key_str(op[1])):
             if seen_o and key_str(op[1]) in keys:
                 out.append('overwrite-after-reopen')
-            keys.add(key_str(op[1]))
+            keys.append(key_str(op[1]))
     return out
 
 
@@ -452,7 +759,11 @@ def shrinks(case):
     for i in range(n):
         yield {'isz': case['isz'], 'ops': ops[:i] + ops[i + 1:]}
     for i, op in enumerate(ops):
-        if op[0] != 'O' and not isinstance(op[1], str):
+        if op[0] != 'O' and isinstance(op[1], list):
             u, c, s = op[1]
             if c > 1:
                 yield {'isz': case['isz'], 'ops': ops[:i] + [[op[0], [u, c // 2, s]] + op[2:]] + ops[i + 1:]}
+        if op[0] != 'O' and isinstance(op[1], dict) and len(op[1].get('cps', [])) > 1:
+            body = op[1]['cps']
+            for j in range(len(body)):
+                yield {'isz': case['isz'], 'ops': ops[:i] + [[op[0], {'cps': body[:j] + body[j + 1:]}] + op[2:]] + ops[i + 1:]}
